@@ -183,6 +183,7 @@ package backend
 //@   ensures [index-gets-deletion-flag] commits == old(commits)+1 ==> len(bw_val[last_batch][0]) == 9 && be64_of(bw_val[last_batch][0]) == newRevision && bw_val[last_batch][0][8] == 0
 //@   ensures [tombstone-version] commits == old(commits)+1 ==> bw_kind[last_batch][1] == 3 && is_enc(bw_key[last_batch][1], key, newRevision) && bw_val[last_batch][1] == tombStoneBytes
 //@   ensures [strictly-newer] commits == old(commits)+1 ==> newRevision > old.Revision && newRevision > old(max_issued)
+//@   ensures [the-version-it-deletes-is-the-one-it-read] commits == old(commits)+1 ==> old.Val == rec_val[0] && old.Revision == rec_rev[0]
 //@   ensures [range] newRevision == 0 || newRevision < 0x8000000000000000
 //@   ensures [closed] !batch_open
 
@@ -211,6 +212,9 @@ package backend
 //@ func (*backend).Delete(ctx, r) (resp, err)
 //@   props C04 C06 C09 C20
 //@   ensures@C06 [a-successful-delete-announces-the-stored-deletion] err == nil && resp != nil && resp.Succeeded ==> commits != old(commits) && last_err == nil && asref(ev, "*common.WatchEvent").Valid && asref(ev, "*common.WatchEvent").Key == r.Key && asref(ev, "*common.WatchEvent").Revision == resp.Header.Revision && asref(ev, "*common.WatchEvent").ResourceVerb == proto.Event_DELETE && is_enc(bw_key[last_batch][1], r.Key, resp.Header.Revision) && bw_val[last_batch][1] == tombStoneBytes
+// when the commit succeeded or its outcome is unknown (a refusal re-reads the key afterwards, which moves the
+// ghost view) the event describes the version the delete read: an unknown outcome is queued and later announced from this very payload
+//@   ensures@C06,C09 [the-event-of-a-committed-delete-carries-the-version-it-deletes] commits == old(commits)+1 && !err_is(last_err, storage.ErrCASFailed) ==> ev != nil && asref(ev, "*common.WatchEvent").Value == rec_val[0] && asref(ev, "*common.WatchEvent").PrevRevision == rec_rev[0] && asref(ev, "*common.WatchEvent").Key == r.Key
 //@   ensures@C06 [a-failed-delete-announces-nothing] err != nil || (resp != nil && !resp.Succeeded) ==> ev == old(ev) || !asref(ev, "*common.WatchEvent").Valid
 //@   ensures [unknown-outcome-is-reported-as-an-error] commits != old(commits) && err_is(last_err, storage.ErrUncertainResult) ==> resp == nil && err != nil
 //@   requires wf_backend(b) && r != nil && pending == 0 && !batch_open
